@@ -8,7 +8,8 @@ enum Mode : uint8_t { M_DETACH_DISCARD, M_DETACH_AWAIT, M_START_FUTURE, M_START_
                       M_RETURN_FUTURE_FN, M_POOL_RUN, M_DESTROY_UNSTARTED, M_START_PROMISE_RACED, M_START_PROMISE_SESSION, M_COUNT };
 enum Comp : uint8_t { C_VALUE, C_THROW, C_SUSPEND_SAME, C_SUSPEND_OTHER, C_RESULT_CTOR_THROWS, C_COUNT };   // last: co_return of an expression from which the result cannot be constructed (its constructor throws)
 struct Node { uint8_t mode, comp; };
-struct Prog { uint8_t vt; std::vector<Node> n; uint8_t yields; uint8_t watcher = 0; };   // watcher (root started with start()): a second thread waits on the SAME future while the coroutine completes
+struct Prog { uint8_t vt; std::vector<Node> n; uint8_t yields; uint8_t watcher = 0; uint8_t unwinding = 0; };   // unwinding: the root is launched by a destructor during stack unwinding
+//   // watcher (root started with start()): a second thread waits on the SAME future while the coroutine completes
 
 inline Prog decode(hz::Reader &r) {
     Prog p; p.vt = (uint8_t)r.mod(4);
@@ -16,6 +17,7 @@ inline Prog decode(hz::Reader &r) {
     for (unsigned i = 0; i < d; i++) { Node x; x.mode = (uint8_t)r.mod(M_COUNT); x.comp = (uint8_t)r.mod(C_COUNT); p.n.push_back(x); }
     p.yields = (uint8_t)r.mod(3);
     p.watcher = (uint8_t)(r.mod(2) == 1);       // trailing byte
+    p.unwinding = (uint8_t)(r.mod(3) == 1);     // trailing byte
     // start(promise) racing with another claimant of the same promise: only for the root (a second thread is involved)
     for (size_t i = 1; i < p.n.size(); i++) if (p.n[i].mode == M_START_PROMISE_RACED) p.n[i].mode = M_START_PROMISE_LIVE;
     // the root is launched from ordinary code: modes that need a coroutine context are mapped
@@ -39,6 +41,7 @@ inline std::string describe(const Prog &p) {
     static const char *vt[] = {"int", "void", "Counted", "int&"};
     hz::Desc d; d << "async<" << vt[p.vt] << "> chain of depth " << (unsigned)p.n.size() << ":";
     for (size_t i = 0; i < p.n.size(); i++) d << " #" << (unsigned)i << "[" << mn[p.n[i].mode] << ", " << cn[p.n[i].comp] << "]";
+    if (p.unwinding) d << "; the root is launched by the destructor of a local during stack unwinding";
     if (p.watcher && p.n[0].mode == M_START_FUTURE) d << "; a second thread waits on the root's future too";
     return d.s;
 }
@@ -183,6 +186,7 @@ void run_t(const Prog &p) {
         auto open_same_gates = [&] { for (size_t k = p.n.size(); k-- > 0;) if (p.n[k].comp == C_SUSPEND_SAME) c.gate_p[k](); };
         // ---- root launched from ordinary code ----
         int got = -100;
+        auto launch = [&] {
         try {
             switch (p.n[0].mode) {
                 case M_DETACH_DISCARD: node<cocls::async<T>, VT>(&c, 0, Guard(SLOT_ARG)).detach(); open_same_gates(); break;
@@ -226,6 +230,13 @@ void run_t(const Prog &p) {
         catch (const val::TestExc &e) { got = 1000 + e.id; }
     catch (const val::PlainExc &e) { got = 1000 + e.id; }
         catch (const cocls::await_canceled_exception &) { got = -1; }
+        };
+        if (p.unwinding) {
+            // the launch happens in the destructor of a local while an unrelated exception propagates through the launching code
+            // (a guard object that starts / joins its coroutine on scope exit): everything still runs and is delivered as usual
+            struct OnExit { decltype(launch) &fn; ~OnExit() { fn(); } };
+            try { OnExit g{launch}; throw val::PlainExc{77}; } catch (const val::PlainExc &e) { HZ_CHECK(e.id == 77, "the exception that was propagating while the coroutine was launched got lost"); }
+        } else launch();
         if (p.n[0].mode != M_START_PROMISE_SESSION) c.received[0] = got;       // (session mode: written by the callback, possibly on another thread)
         if (resolver.joinable()) resolver.join();
         // detached parts may still be running on the pool or waiting for the other thread: settle
@@ -270,7 +281,7 @@ static const char *const counter_names[] = {"c0"};
 
 namespace hz {
 static const Info I = {
-    "C04", 1, 17, 100000, true, true,
+    "C04", 1, 18, 100000, true, true,
     "rapidcheck generates (program, schedule, faults): result type in {int, void, instance-counted}, a chain of 1..5 scripted async coroutines; each node is launched by its parent (the root by ordinary code) in one of the start modes "
     "{detach discarded, co_await detach(), start()->future, start(live promise), start(already claimed promise), co_await coro, join(), future<T>(coro), future-returning coroutine function, thread_pool::run, destroyed unstarted, start(promise) of a future living in an object that only the coroutine's own argument keeps alive} and completes by "
     "{returning a value, throwing, suspending on a future resolved by the launching thread / by another thread of the virtual runtime}; every coroutine takes a guard argument by value and holds a guard local. "
